@@ -59,7 +59,8 @@ prop('C07', prefix=['c07'],
      bounds='one sheet with A1 = 1.5, B1 = A1+1, C1 = SUM(A1:B1), D1 = SEQUENCE(2) (spilling into D2), E1 = D2*2, A2 = C1&"x": a reference build (dependency order, one '
             'evaluation at the end) against a build that enters the formulas in one of four orders (solver chooses), evaluates after every edit or only at the end, '
             'and enters the number first or last; then both are evaluated again; seven cells compared; two dynamic arrays with overlapping spill areas (C1 = SEQUENCE(3), A3 = SEQUENCE(1,3)) entered in either order, '
-            'evaluated after each edit or once',
+            'evaluated after each edit or once; a value typed into cell 2..=4 of a standing vertical or horizontal SEQUENCE(4) spill, evaluated between the edits or once; '
+            'an array reading only the spilled cells of a later one, one versus two evaluations, either entry order',
      outside='save-and-reload in between (bitcode / xlsx), other formulas and orders, volatile functions, larger spill chains')
 prop('C08', prefix=['c08'],
      bounds='Model::set_cells_with_result on a formula cell of each kind (plain, CSE anchor over <=2x2 with its spill cells, dynamic anchor) with a result that is any '
